@@ -111,7 +111,7 @@ def random_layer(ctx, ncases):
         else:
             names = rng.shuffle([n_ for n_, t in gen_sql.STD_SCHEMA if t != 'object'])[:rng.range(1, 4)]
             targets = [ast.Target(ast.Column(c), None) for c in names]
-            if rng.chance(1, 3):
+            if rng.chance(1, 2):
                 targets.append(ast.Target(eg.expr(rng.choice(gen_sql.BASIC)), 'x'))
             keys = []
             for _ in range(rng.range(1, 4)):
@@ -125,7 +125,7 @@ def random_layer(ctx, ncases):
                 else:
                     keys.append(eg.expr(rng.choice(['int', 'Decimal', 'str', 'date', 'bool']), 2))
             # a key that looks like the expression target but differs in a literal: it is another key (hidden), not that target
-            if isinstance(targets[-1].expression, ast.Node) and not isinstance(targets[-1].expression, ast.Column) and rng.chance(1, 2):
+            if isinstance(targets[-1].expression, ast.Node) and not isinstance(targets[-1].expression, ast.Column) and rng.chance(4, 5):
                 near = gen_sql.perturb_constant(targets[-1].expression, rng)
                 if near is not None:
                     keys.insert(rng.below(len(keys) + 1), near)
@@ -136,7 +136,7 @@ def random_layer(ctx, ncases):
         limit = rng.choice([None, None, 0, 1, 2, 5, 50])
         where = eg.expr('bool', 1) if rng.chance(1, 3) else None
         frm = ast.Table('t')
-        if rng.chance(1, 5):
+        if rng.chance(1, 3):
             # the same statement over a FROM subquery delivering the table: subquery columns are columns of their own
             frm = ast.Select([ast.Target(ast.Column(n_), None) for n_, t in gen_sql.STD_SCHEMA], ast.Table('t'), None, None, None, None, None, None)
             ctx.count('from-subquery')
